@@ -97,6 +97,12 @@ fn run_seq_long_names(part: &mut Part, alphabet: Vec<Op>, depth: usize, mons: Ve
     part.bounds = json!({"short_names": b0, "long_names": part.bounds.clone()});
 }
 
+/// The shallow "every seed" profile shared by all properties.
+fn all_seeds_prof(alphabet: Vec<Op>, tiny_depth: usize, q: bool) -> Profile {
+    let seeds = if TINY { all_seeds() } else { thin(all_seeds(), 4, q) };
+    prof("every seed x alphabet (shallow)", seeds, alphabet, if TINY { tiny_depth } else { 1 })
+}
+
 fn prof(name: &str, seeds: Vec<Seed>, alphabet: Vec<Op>, depth: usize) -> Profile {
     Profile {
         name: name.to_string(),
@@ -119,6 +125,7 @@ pub fn run(part: &mut Part) {
                         a_full(),
                         if q { 3 } else { 4 },
                     ),
+                    all_seeds_prof(a_full(), 2, q),
                 ]
             } else {
                 vec![prof(
@@ -154,6 +161,7 @@ pub fn run(part: &mut Part) {
                     prof("empty x A_roll", vec![seed_empty()], a_roll(), if q { 4 } else { 5 }),
                     prof("structural seeds x A_roll", structural_seeds(), a_roll(), if q { 4 } else { 5 }),
                     prof("cursor near file end / all-dead file x A_roll", file_end, a_roll(), if q { 3 } else { 4 }),
+                    all_seeds_prof(a_roll(), if q { 2 } else { 3 }, q),
                 ]
             } else {
                 let mut s = vec![seed_empty()];
@@ -201,6 +209,7 @@ pub fn run(part: &mut Part) {
                 vec![
                     prof("GC seeds x A_roll", seeds, a_roll(), if q { 3 } else { 4 }),
                     prof("empty x A_roll", vec![seed_empty()], a_roll(), if q { 4 } else { 5 }),
+                    all_seeds_prof(a_roll(), if q { 2 } else { 3 }, q),
                 ]
             } else {
                 vec![prof("GC seeds x A_roll", seeds, a_roll(), if q { 2 } else { 3 })]
@@ -222,7 +231,7 @@ pub fn run(part: &mut Part) {
             // by a completed call may be reachable again
             let mut cseeds = vec![seed_empty_old(), seed_gc_ready(), seed_two_files(), seed_future()];
             cseeds.extend(gc_spill_seeds().into_iter().step_by(if q { 3 } else { 1 }));
-            let cprofiles = vec![prof("GC seeds x A_write (crash)", cseeds, a_write(), if TINY { if q { 2 } else { 3 } } else if q { 1 } else { 2 })];
+            let cprofiles = vec![prof("GC seeds x A_write (crash)", cseeds, a_write(), if TINY { if q { 2 } else { 3 } } else if q { 1 } else { 2 }), all_seeds_prof(a_write(), if q { 1 } else { 2 }, q)];
             let ccfgs: Vec<CrashCfg> = seeds_hash.iter().map(|(hs, _)| CrashCfg {
                 property: "C04", oracle: Oracle::C04, policy: PolicyCfg::Default, hash_seed: *hs, power_loss: false, second_crash: true, cont_struct: 1, cont_other: if q { 0 } else { 1 }, initial_open: false,
             }).collect();
@@ -239,6 +248,7 @@ pub fn run(part: &mut Part) {
                 vec![
                     prof("multi-file seeds x A_roll", seeds, a_roll(), if q { 3 } else { 4 }),
                     prof("empty x A_roll", vec![seed_empty()], a_roll(), if q { 4 } else { 5 }),
+                    all_seeds_prof(a_roll(), if q { 2 } else { 3 }, q),
                 ]
             } else {
                 vec![prof("multi-file seeds x A_roll", seeds, a_roll(), if q { 2 } else { 3 })]
@@ -256,7 +266,7 @@ pub fn run(part: &mut Part) {
             let cseeds = thin(cseeds, 3, q);
             let mut calpha = a_write();
             calpha.push(Op::app(QA, Pos::Auto, Sz::XL));
-            let cprofiles = vec![prof("multi-file seeds x (A_write + XL), crash + recovery", cseeds, calpha, if TINY { if q { 2 } else { 3 } } else { 1 })];
+            let cprofiles = vec![prof("multi-file seeds x (A_write + XL), crash + recovery", cseeds, calpha.clone(), if TINY { if q { 2 } else { 3 } } else { 1 }), all_seeds_prof(calpha, if q { 1 } else { 2 }, q)];
             let ccfgs: Vec<CrashCfg> = [PolicyCfg::Default, PolicyCfg::DoNothing].iter().map(|pol| CrashCfg {
                 property: "C06", oracle: Oracle::C06, policy: *pol, hash_seed: 0, power_loss: false, second_crash: false, cont_struct: 0, cont_other: 0, initial_open: false,
             }).collect();
@@ -270,6 +280,7 @@ pub fn run(part: &mut Part) {
                     prof("empty x A_full", vec![seed_empty()], a_full(), if q { 3 } else { 4 }),
                     prof("structural seeds x A_full", structural_seeds(), a_full(), if q { 3 } else { 4 }),
                     prof("cursor at block/file end, all-dead file x A_full", { let mut v = cursor_seeds(&[0, 3], &[0, 6, 7, 19]); v.extend(all_dead_seeds()); v }, a_full(), if q { 3 } else { 4 }),
+                    all_seeds_prof(a_full(), 2, q),
                 ]
             } else {
                 let mut s = vec![seed_empty()];
@@ -295,7 +306,7 @@ pub fn run(part: &mut Part) {
             alpha.push(Op::app(QA, Pos::Retry, Sz::S3));
             alpha.push(Op::Append { q: QA, pos: Pos::Auto, sizes: vec![] });
             let profiles = if TINY {
-                vec![prof("cursor + GC seeds x (A_roll + no-op shapes)", seeds, alpha, if q { 3 } else { 5 })]
+                vec![prof("cursor + GC seeds x (A_roll + no-op shapes)", seeds, alpha.clone(), if q { 3 } else { 5 }), all_seeds_prof(alpha, if q { 2 } else { 3 }, q)]
             } else {
                 vec![prof("cursor + GC seeds x (A_roll + no-op shapes)", seeds, alpha, if q { 2 } else { 3 })]
             };
@@ -314,6 +325,7 @@ pub fn run(part: &mut Part) {
                     prof("empty x A_full", vec![seed_empty()], a_full(), if q { 4 } else { 5 }),
                     prof("structural seeds x A_full", structural_seeds(), a_full(), if q { 3 } else { 4 }),
                     prof("big-buffer seeds x A_full", vec![seed_big_buffer(QA), seed_big_buffer(QB)], a_full(), if q { 2 } else { 3 }),
+                    all_seeds_prof(a_full(), 2, q),
                 ]
             } else {
                 let mut s = vec![seed_empty(), seed_big_buffer(QA)];
@@ -335,7 +347,8 @@ pub fn run(part: &mut Part) {
             let profiles = if TINY {
                 vec![
                     prof("empty x (A_write + XL)", vec![seed_empty()], aw.clone(), if q { 3 } else { 4 }),
-                    prof("seeds x (A_write + XL)", seeds, aw, if q { 2 } else { 3 }),
+                    prof("seeds x (A_write + XL)", seeds, aw.clone(), if q { 2 } else { 3 }),
+                    all_seeds_prof(aw, if q { 1 } else { 2 }, q),
                 ]
             } else {
                 let mut s = vec![seed_empty()];
@@ -381,7 +394,7 @@ pub fn run(part: &mut Part) {
             alpha.push(Op::Persist(true));
             alpha.push(Op::app(QA, Pos::Auto, Sz::XL));
             let profiles = if TINY {
-                vec![prof("seeds x (A_write + Persist + XL)", seeds, alpha, if q { 2 } else { 3 })]
+                vec![prof("seeds x (A_write + Persist + XL)", seeds, alpha.clone(), if q { 2 } else { 3 }), all_seeds_prof(alpha, if q { 1 } else { 2 }, q)]
             } else {
                 vec![prof("seeds x (A_write + Persist + XL)", seeds, alpha, if q { 1 } else { 2 })]
             };
@@ -467,7 +480,8 @@ pub fn run(part: &mut Part) {
             let profiles = if TINY {
                 vec![
                     prof("empty x (A_roll+Persist)", vec![seed_empty()], alpha.clone(), if q { 4 } else { 5 }),
-                    prof("seeds x (A_roll+Persist)", seeds, alpha, if q { 3 } else { 4 }),
+                    prof("seeds x (A_roll+Persist)", seeds, alpha.clone(), if q { 3 } else { 4 }),
+                    all_seeds_prof(alpha, 2, q),
                 ]
             } else {
                 let mut s = vec![seed_empty()];
@@ -489,6 +503,7 @@ pub fn run(part: &mut Part) {
                 vec![
                     prof("empty x A_roll", vec![seed_empty()], a_roll(), if q { 5 } else { 6 }),
                     prof("shared-file seeds x A_roll", seeds, a_roll(), if q { 3 } else { 4 }),
+                    all_seeds_prof(a_roll(), if q { 2 } else { 3 }, q),
                 ]
             } else {
                 let mut s = vec![seed_empty()];
@@ -505,7 +520,7 @@ pub fn run(part: &mut Part) {
             let mut calpha = a_write();
             calpha.push(Op::app(QA, Pos::Auto, Sz::XL));
             calpha.push(Op::app(QB, Pos::Auto, Sz::XL));
-            let cprofiles = vec![prof("seeds x (A_write + XL), crash inside the last call", cseeds, calpha, if TINY { if q { 2 } else { 3 } } else { 1 })];
+            let cprofiles = vec![prof("seeds x (A_write + XL), crash inside the last call", cseeds, calpha.clone(), if TINY { if q { 2 } else { 3 } } else { 1 }), all_seeds_prof(calpha, 1, q)];
             let cdescr: Vec<_> = cprofiles.iter().map(|p| p.describe()).collect();
             let stats = explore(&cprofiles, part.seed, |env, leaf| crate::crash::c18_crash_leaf(env, leaf));
             part.stats.merge(stats);
@@ -518,7 +533,7 @@ pub fn run(part: &mut Part) {
             let seeds = vec![seed_ab(), seed_two_files(), seed_three_files(), seed_interleaved(), seed_gc_ready()];
             let mut alpha = a_write();
             alpha.push(Op::app(QA, Pos::Auto, Sz::XL));
-            let profiles = vec![prof("1-3 file seeds x (A_write + XL)", seeds, alpha, if TINY { if q { 2 } else { 3 } } else if q { 1 } else { 2 })];
+            let profiles = vec![prof("1-3 file seeds x (A_write + XL)", seeds, alpha.clone(), if TINY { if q { 2 } else { 3 } } else if q { 1 } else { 2 }), all_seeds_prof(alpha, 1, q)];
             let descr: Vec<_> = profiles.iter().map(|p| p.describe()).collect();
             let stats = explore(&profiles, part.seed, |env, leaf| {
                 crate::fault::fault_leaf(env, leaf, false);
@@ -550,8 +565,10 @@ pub fn run(part: &mut Part) {
             let nseeds = seeds.len();
             let profiles = vec![prof("cursor@file_end-k (k=0..40) x appends", seeds, alpha, if TINY { if q { 2 } else { 3 } } else if q { 1 } else { 2 })];
             let mon = Monitors { property: "C07", conformance: true, accessors: true, reopen_state: true, final_reopen: true, ..Default::default() };
+            // also with the entries parked in the user-space buffer between calls
+            let mons = vec![mon.clone(), Monitors { policy: Some(PolicyCfg::DoNothing), ..mon.clone() }, Monitors { policy: Some(PolicyCfg::DelayAltFlush), ..mon }];
             let frame_bounds = part.bounds.clone();
-            run_seq(part, profiles, vec![mon]);
+            run_seq(part, profiles, mons);
             let seq_bounds = part.bounds.clone();
             part.bounds = json!({"frame_grid": frame_bounds, "through_files": seq_bounds, "through_files_seeds": nseeds});
             part.rule = "(1) record layer over in-memory blocks: every (start offset in block) x (entry length) x (follower length) x (second follower) of the grid is written with the real RecordWriter and read back with the real RecordReader: entries identical, in order, then end of log; (2) through files: from seeds with the write cursor at every reachable file_end-k, k=0..40, every sequence of appends (small, empty, 1.5 blocks, > 1 file, batch) and restarts, read back through range(..) after reopen and compared with the model".into();
@@ -567,7 +584,7 @@ pub fn run(part: &mut Part) {
             let mut seeds = vec![seed_empty(), seed_ab(), seed_two_files(), seed_recreated(), seed_recreated_from_zero(), seed_gc_ready()];
             seeds.extend(cursor_seeds(&[0, 1], &[0, 7, 8]));
             let seeds = thin(seeds, 2, q);
-            let profiles = vec![prof("seeds x (A_write + frame-shaped payload)", seeds, alpha, if TINY { if q { 1 } else { 2 } } else { 1 })];
+            let profiles = vec![prof("seeds x (A_write + frame-shaped payload)", seeds, alpha.clone(), if TINY { if q { 1 } else { 2 } } else { 1 }), all_seeds_prof(alpha, 1, q)];
             let descr: Vec<_> = profiles.iter().map(|p| p.describe()).collect();
             let stats = explore(&profiles, part.seed, |env, leaf| crate::damage::c08_leaf(env, leaf));
             part.stats.merge(stats);
@@ -581,7 +598,7 @@ pub fn run(part: &mut Part) {
             seeds.extend(cursor_seeds(&[0, 3], &[0, 6, 7, 8]));
             let mut alpha = a_write();
             alpha.push(Op::Trunc { q: QA, at: Tr::Beyond });
-            let profiles = vec![prof("seeds x A_write", seeds, alpha, if TINY { if q { 2 } else { 3 } } else if q { 1 } else { 2 })];
+            let profiles = vec![prof("seeds x A_write", seeds, alpha.clone(), if TINY { if q { 2 } else { 3 } } else if q { 1 } else { 2 }), all_seeds_prof(alpha, 1, q)];
             let descr: Vec<_> = profiles.iter().map(|p| p.describe()).collect();
             let stats = explore(&profiles, part.seed, |env, leaf| crate::damage::c09_leaf(env, leaf));
             part.stats.merge(stats);
@@ -608,7 +625,7 @@ pub fn run(part: &mut Part) {
             let mut seeds2 = vec![seed_empty(), seed_ab(), seed_two_files(), seed_recreated_from_zero()];
             seeds2.extend(cursor_seeds(&[0, 3], &[0, 7, 8]));
             let seeds2 = thin(seeds2, 3, q);
-            let profiles2 = vec![prof("seeds x A_write (in-place faults)", seeds2, alpha2, 1)];
+            let profiles2 = vec![prof("seeds x A_write (in-place faults)", seeds2, alpha2.clone(), 1), all_seeds_prof(vec![Op::app(QA, Pos::Auto, Sz::S3), Op::Trunc { q: QA, at: Tr::Last }], 1, q)];
             let descr2: Vec<_> = profiles2.iter().map(|p| p.describe()).collect();
             let stats = explore(&profiles2, part.seed, |env, leaf| crate::damage::c10_inplace_leaf(env, leaf));
             part.stats.merge(stats);
@@ -629,6 +646,7 @@ pub fn run(part: &mut Part) {
             let profiles = vec![
                 prof("roll/GC seeds x A_roll", seeds, a_roll(), if TINY { if q { 2 } else { 3 } } else if q { 1 } else { 2 }),
                 prof("empty x A_roll", vec![seed_empty()], a_roll(), if TINY { if q { 3 } else { 4 } } else { 2 }),
+                all_seeds_prof(a_roll(), 1, q),
             ];
             let descr: Vec<_> = profiles.iter().map(|p| p.describe()).collect();
             let stats = explore(&profiles, part.seed, |env, leaf| {
